@@ -863,6 +863,12 @@ def run_r5_graph(repo: Repo, res: Result) -> None:
         res.undecide("C02.R5", key, "the construction never calls a mutator of a networkx graph object the executor recognises (nx.DiGraph())", wh)
         return
     ok = n_edges > 0
+    if not ok:
+        opaque = [e for r in runs for e in r.effects if e.kind == "ext" and e.name in ("add_edge", "add_edges_from") and any(mentions(x, R) for x in e.args)]
+        if opaque:
+            # edges are built from the record - through values the executor could not reduce to importer() / importee()
+            res.undecide("C02.R5", key, f"an edge is added between {show(opaque[0].args[0])[:160]} and {show(opaque[0].args[1])[:160] if len(opaque[0].args) > 1 else '...'}: derived from the import record in a way the executor cannot interpret", opaque[0].where or wh)
+            return
     res.add("C02.R5", key + " [import edge exists]", ok, f"import edges are added on {n_edges} path(s)" if ok else "no path of the graph construction adds an edge for an import record", wh, nontrivial=False)
     if not ok:
         return
